@@ -65,7 +65,7 @@ DIMENSIONS = {
            # multi-line text: blank lines around, extra indentation
     'space': [' ', '  ', '\t'],
     'comment_style': ['line', 'block'],
-    'comment_place': ['above', 'trailing', 'both'],                # separator between tokens on a line
+    'comment_place': ['above', 'trailing', 'both'],                # ('both_empty' is used by C14 only, see _attach)                # separator between tokens on a line
 }
 
 
@@ -196,10 +196,18 @@ class Printer:
 
     def _attach(self, lines: List[str], comment: str, depth: int, can_trail: bool, can_above: bool = True,
                 trail_line: int = -1) -> List[str]:
+        place = self.f.pick('comment_place')
         if not comment:
+            if place == 'both_empty' and can_trail and can_above:
+                # an element WITHOUT a comment: an EMPTY comment trails its line and a comment stands above -- the trailing one
+                # wins by being there, not by having text
+                lines = list(lines)
+                lines[trail_line] += self.comment_trailing('').rstrip(' ') + '\x01'
+                return self.comment_above(enc('superseded: written above'), depth) + lines
             return lines
         one = '\n' not in dec(comment)
-        place = self.f.pick('comment_place')
+        if place == 'both_empty':
+            place = 'both'
         if can_trail and one and (not can_above or place in ('trailing', 'both')):
             lines = list(lines)
             lines[trail_line] += self.comment_trailing(comment) + '\x01'      # \x01: line already ends in a comment
